@@ -1,8 +1,215 @@
-import Hidi
-namespace Hidi.Props.C12
-open Hidi
+/-
+  C12 — Config selection: user over factory, specific over default, bad files isolated.
+  Theorems about `Hidi.findConfig`, `Hidi.loadDir`, `Hidi.loadAll`, for all inputs.
 
-/-- placeholder obligation replaced by the real theorems below as they are proved -/
-theorem zero_id : zeroID = (0, 0, 0, 0) := rfl
+  * `C12_precedence_*`  : the four-step order user exact → user default → factory exact → factory default, from the keyboard
+                          maps for keyboards and the gamepad maps for joysticks; `notFound` iff none exists; any other
+                          device type is `unsupported` whatever is configured;
+  * `C12_isolation`     : a directory gives the same result as the same directory with every entry removed that is a
+                          directory, does not carry the `.toml` suffix (any case), or fails to parse — so adding or removing
+                          such entries anywhere in the tree changes nothing (`C12_bad_entry_irrelevant`);
+  * `C12_never_panics`  : `LoadDeviceConfigs` yields a result or an error for every combination of present / missing
+                          directories; a missing directory is an error.
+-/
+import HidiProofs.EngineSimBase
+import Hidi.Loader
+namespace Hidi.Props.C12
+open Hidi Hidi.EngineSim
+
+/-! ### precedence -/
+
+def pickSpec (user fact : List (InputID × String)) (id : InputID) : Except FindErr (String × String) :=
+  match alookup id user with
+  | some f => .ok (f, "user")
+  | none =>
+    match alookup zeroID user with
+    | some f => .ok (f, "user")
+    | none =>
+      match alookup id fact with
+      | some f => .ok (f, "factory")
+      | none =>
+        match alookup zeroID fact with
+        | some f => .ok (f, "factory")
+        | none => .error .notFound
+
+/-- **precedence, keyboards**: user exact, user default, factory exact, factory default — from the keyboard directories -/
+theorem C12_precedence_keyboard (c : DeviceConfigs) (id : InputID) :
+    findConfig c id .keyboard = pickSpec c.userKeyboards c.factoryKeyboards id := by
+  unfold findConfig pickSpec
+  simp only [firstSome]
+  cases alookup id c.userKeyboards <;> cases alookup zeroID c.userKeyboards <;>
+    cases alookup id c.factoryKeyboards <;> cases alookup zeroID c.factoryKeyboards <;> rfl
+
+/-- **precedence, joysticks**: the same order, from the gamepad directories -/
+theorem C12_precedence_joystick (c : DeviceConfigs) (id : InputID) :
+    findConfig c id .joystick = pickSpec c.userGamepads c.factoryGamepads id := by
+  unfold findConfig pickSpec
+  simp only [firstSome]
+  cases alookup id c.userGamepads <;> cases alookup zeroID c.userGamepads <;>
+    cases alookup id c.factoryGamepads <;> cases alookup zeroID c.factoryGamepads <;> rfl
+
+/-- any other device type is unsupported, whatever files exist -/
+theorem C12_unsupported (c : DeviceConfigs) (id : InputID) (ty : DevType) (h1 : ty ≠ .keyboard) (h2 : ty ≠ .joystick) :
+    findConfig c id ty = .error .unsupported := by
+  cases ty <;> simp_all [findConfig]
+
+/-- a user file always beats any factory file -/
+theorem C12_user_over_factory (c : DeviceConfigs) (id : InputID) (f : String)
+    (h : alookup id c.userKeyboards = some f ∨ (alookup id c.userKeyboards = none ∧ alookup zeroID c.userKeyboards = some f)) :
+    findConfig c id .keyboard = .ok (f, "user") := by
+  rw [C12_precedence_keyboard]
+  unfold pickSpec
+  rcases h with h | ⟨h1, h2⟩
+  · simp [h]
+  · simp [h1, h2]
+
+/-- `notFound` exactly when none of the four candidates exists -/
+theorem C12_not_found_iff (c : DeviceConfigs) (id : InputID) :
+    findConfig c id .keyboard = .error .notFound ↔
+      alookup id c.userKeyboards = none ∧ alookup zeroID c.userKeyboards = none ∧
+      alookup id c.factoryKeyboards = none ∧ alookup zeroID c.factoryKeyboards = none := by
+  rw [C12_precedence_keyboard]
+  unfold pickSpec
+  cases alookup id c.userKeyboards <;> cases alookup zeroID c.userKeyboards <;>
+    cases alookup id c.factoryKeyboards <;> cases alookup zeroID c.factoryKeyboards <;> simp
+
+/-! ### isolation of bad files -/
+
+/-- entries that can contribute a configuration -/
+def good (e : Entry) : Bool :=
+  !e.isDir && hasTomlSuffix (e.path.getLast?.getD "") && (match e.outcome with | .ok _ => true | .fail => false)
+
+def stepL (m : List (InputID × String)) (e : Entry) : List (InputID × String) :=
+  if e.isDir then m else
+  let name := e.path.getLast?.getD ""
+  if ¬ hasTomlSuffix name then m else
+  match e.outcome with
+  | .fail => m
+  | .ok id => ainsert id name m
+
+theorem loadDir_eq (es : List Entry) : loadDir es = (sortEntries es).foldl stepL [] := rfl
+
+theorem stepL_bad {m : List (InputID × String)} {e : Entry} (h : good e = false) : stepL m e = m := by
+  unfold stepL good at *
+  cases hd : e.isDir
+  · simp only [hd, Bool.not_false, Bool.true_and, Bool.false_eq_true, if_false] at h ⊢
+    cases hs : hasTomlSuffix (e.path.getLast?.getD "")
+    · simp
+    · simp only [hs, Bool.true_and] at h
+      cases ho : e.outcome with
+      | fail => simp
+      | ok id => rw [ho] at h; simp at h
+  · simp
+
+theorem foldl_filter_good (l : List Entry) : ∀ m, l.foldl stepL m = (l.filter good).foldl stepL m := by
+  induction l with
+  | nil => intro m; rfl
+  | cons e r ih =>
+    intro m
+    simp only [List.foldl_cons, List.filter_cons]
+    cases hg : good e
+    · simp only [Bool.false_eq_true, if_false]
+      rw [stepL_bad hg]; exact ih m
+    · simp only [if_true, List.foldl_cons]; exact ih _
+
+/-- inserting an entry puts it somewhere into the list and leaves the rest as it was -/
+theorem insertEntry_split (e : Entry) (r : List Entry) :
+    ∃ l1 l2, r = l1 ++ l2 ∧ insertEntry e r = l1 ++ e :: l2 := by
+  induction r with
+  | nil => exact ⟨[], [], rfl, rfl⟩
+  | cons x r ih =>
+    simp only [insertEntry]
+    split
+    · exact ⟨[], x :: r, rfl, rfl⟩
+    · obtain ⟨l1, l2, h1, h2⟩ := ih
+      exact ⟨x :: l1, l2, by rw [h1]; rfl, by rw [h2]; rfl⟩
+
+/-- **isolation (on the walk)**: the result of a directory is the result of the walk with every entry dropped that is a
+    directory, lacks the `.toml` suffix, or fails to parse -/
+theorem C12_isolation (es : List Entry) :
+    loadDir es = ((sortEntries es).filter good).foldl stepL [] := by
+  rw [loadDir_eq]; exact foldl_filter_good _ _
+
+/-- **a bad entry changes nothing**: adding a directory, a non-TOML file or a file that fails to parse — with any name,
+    anywhere in the tree — leaves the result of the directory as it was -/
+theorem C12_bad_entry_irrelevant (b : Entry) (es : List Entry) (hb : good b = false) :
+    loadDir (b :: es) = loadDir es := by
+  rw [C12_isolation, C12_isolation]
+  have : sortEntries (b :: es) = insertEntry b (sortEntries es) := rfl
+  rw [this]
+  obtain ⟨l1, l2, h1, h2⟩ := insertEntry_split b (sortEntries es)
+  rw [h2, h1]
+  simp only [List.filter_append, List.filter_cons, hb, Bool.false_eq_true, if_false]
+
+/-- only good entries can put an identifier into the result -/
+theorem C12_result_from_good (es : List Entry) (id : InputID) (f : String) (h : (id, f) ∈ loadDir es) :
+    ∃ e ∈ es, good e = true ∧ e.outcome = .ok id ∧ e.path.getLast?.getD "" = f := by
+  rw [C12_isolation] at h
+  have hmem : ∀ (l : List Entry) (m : List (InputID × String)), (id, f) ∈ l.foldl stepL m →
+      (id, f) ∈ m ∨ ∃ e ∈ l, e.outcome = .ok id ∧ e.path.getLast?.getD "" = f := by
+    intro l
+    induction l with
+    | nil => intro m hm; exact Or.inl hm
+    | cons e r ih =>
+      intro m hm
+      simp only [List.foldl_cons] at hm
+      rcases ih _ hm with h1 | ⟨e', he', h2⟩
+      · unfold stepL at h1
+        split at h1
+        · exact Or.inl h1
+        · simp only at h1
+          split at h1
+          · exact Or.inl h1
+          · split at h1
+            · exact Or.inl h1
+            · rename_i id' ho
+              rcases mem_ainsert.mp h1 with h3 | h3
+              · exact Or.inl h3.1
+              · simp only [Prod.mk.injEq] at h3
+                exact Or.inr ⟨e, List.mem_cons_self, by rw [ho, h3.1], h3.2.symm⟩
+      · exact Or.inr ⟨e', List.mem_cons_of_mem _ he', h2⟩
+  rcases hmem _ _ h with h0 | ⟨e, he, h1, h2⟩
+  · cases h0
+  · have hf := List.mem_filter.mp he
+    have hsort : ∀ (l : List Entry) (x : Entry), x ∈ sortEntries l → x ∈ l := by
+      intro l
+      induction l with
+      | nil => intro x hx; exact hx
+      | cons y r ih =>
+        intro x hx
+        have : sortEntries (y :: r) = insertEntry y (sortEntries r) := rfl
+        rw [this] at hx
+        obtain ⟨l1, l2, h1', h2'⟩ := insertEntry_split y (sortEntries r)
+        rw [h2'] at hx
+        rcases List.mem_append.mp hx with hx | hx
+        · exact List.mem_cons_of_mem _ (ih x (by rw [h1']; exact List.mem_append_left _ hx))
+        · rcases List.mem_cons.mp hx with hx | hx
+          · rw [hx]; exact List.mem_cons_self
+          · exact List.mem_cons_of_mem _ (ih x (by rw [h1']; exact List.mem_append_right _ hx))
+    exact ⟨e, hsort es e hf.1, hf.2, h1, h2⟩
+
+/-! ### missing directories -/
+
+/-- **never a crash**: for every combination of present / missing directories the loader returns a value or an error -/
+theorem C12_never_panics (fg fk ug uk : Root) : loadAll fg fk ug uk ≠ .panic := by
+  unfold loadAll
+  split <;> simp
+
+theorem C12_missing_is_error (fg fk ug uk : Root)
+    (h : fg.present = false ∨ fk.present = false ∨ ug.present = false ∨ uk.present = false) :
+    loadAll fg fk ug uk = .err := by
+  unfold loadAll
+  rw [if_pos]
+  rcases h with h | h | h | h <;> simp [h]
+
+/-! ### non-vacuity -/
+
+def exEntries : List Entry :=
+  [⟨["b.toml"], false, .ok (3, 1, 2, 3)⟩, ⟨["a.TOML"], false, .ok (0, 0, 0, 0)⟩, ⟨["broken.toml"], false, .fail⟩,
+   ⟨["c.txt"], false, .ok (3, 1, 2, 3)⟩, ⟨["z.toml"], true, .fail⟩, ⟨["zz.toml"], false, .ok (3, 1, 2, 3)⟩]
+
+example : loadDir exEntries = [((0, 0, 0, 0), "a.TOML"), ((3, 1, 2, 3), "zz.toml")] := by decide
+example : findConfig ⟨[], [((3, 1, 2, 3), "f.toml")], [], [((0, 0, 0, 0), "u0.toml")]⟩ (3, 1, 2, 3) .keyboard =
+    .ok ("u0.toml", "user") := by rfl
 
 end Hidi.Props.C12
